@@ -406,6 +406,19 @@ func conTypes() []*conType {
 			)
 		}
 		t.ops = append(t.ops, opSpec{"Size", "Size()", func(i any) string { return fmt.Sprint(i.(B).Size()) }})
+		// Traverse against concurrent writers, judged by what even a weakly consistent traversal owes its
+		// caller: a key that no concurrent call touches (3: the calls work on 1 and 2) and that is present
+		// throughout is visited exactly once, with its value; what is reported about 1 and 2 is left open
+		t.ops = append(t.ops, opSpec{"Traverse", "Traverse()/visits-of-the-untouched-key-3", func(i any) string {
+			n, val := 0, ""
+			i.(B).Traverse(func(it bstree.Item[int, string]) {
+				if it.Key == 3 {
+					n++
+					val = it.Val
+				}
+			})
+			return fmt.Sprint(n, val)
+		}})
 		t.extra = append(t.extra, opSpec{"Traverse", "Traverse(record)", func(i any) string {
 			var out []string
 			i.(B).Traverse(func(it bstree.Item[int, string]) { out = append(out, fmt.Sprint(it.Key, it.Val)) })
